@@ -366,7 +366,8 @@ func main() {
 		b, err := cmd.Output()
 		got := []string{}
 		if len(b) > 0 {
-			got = strings.Split(strings.TrimRight(string(b), "\n"), "\n")
+			// one answer per line; an answer may be the empty string, so only the final newline is dropped
+			got = strings.Split(strings.TrimSuffix(string(b), "\n"), "\n")
 		}
 		for _, g := range got {
 			fmt.Fprintln(out, g)
